@@ -672,6 +672,11 @@ def namespace_exclusion(repo: Repo, res: CheckResult) -> None:
                 if idx < len(cps):
                     out |= tested(callee, cps[idx], depth + 1)
         return out
+    declared = {norm(t) for fn_ in ci.methods.values() for a in ast.walk(fn_) if isinstance(a, (ast.Assign, ast.AnnAssign))
+                for t in (a.targets if isinstance(a, ast.Assign) else [a.target])}
+    for cat in {c for need in NAMESPACE_MATRIX.values() for c in need if c.startswith("_")}:
+        if f"self.{cat}" not in declared:
+            raise AnalysisError(f"BuiltinCascadeNamespace no longer keeps `{cat}`: the category matrix has to be re-confirmed")
     for mname, need in NAMESPACE_MATRIX.items():
         fn = ci.methods.get(mname)
         if fn is None:
